@@ -101,6 +101,30 @@ pub fn record(mode: &str, seed: u64, n: usize, out: &mut Out, shard: u32, of: u3
                 }
             }
         }
+        // beyond the listed properties: the rest of the public surface (./check extras)
+        "misc" => {
+            for id in 0..=255u8 {
+                out.calls += 2;
+                out.emit(json!({"op": "svc", "id": id, "res": proj::opt(&dlt_core::service_id::service_id_lookup(id), |x| json!(x.0))}), true);
+                let c = ControlType::from_value(id);
+                let kind = match c { ControlType::Request => "request", ControlType::Response => "response", ControlType::Unknown(_) => "unknown" };
+                out.emit(json!({"op": "ctl", "n": id, "res": {"kind": kind, "value": match c { ControlType::Unknown(n) => n, ControlType::Request => 1, ControlType::Response => 2 }, "back": c.value()}}), true);
+            }
+            let mut r = crate::rng::Rng::new(seed);
+            for _ in 0..n.max(50) {
+                let t = TypeInfo { kind: crate::gen::kind(&mut r), coding: crate::gen::coding(&mut r), has_variable_info: r.coin(), has_trace_info: r.coin() };
+                out.calls += 1;
+                out.emit(json!({"op": "width", "t": proj::type_info(&t), "res": t.type_width()}), true);
+                let ma = if r.one_in(10) { 300 } else { 5 };
+                let m = crate::gen::message(&mut r, &crate::gen::MsgOpts { storage: Some(false), big: 4, max_args: ma });
+                out.calls += 1;
+                out.emit(json!({"op": "argcount", "p": proj::payload(&m.payload), "res": m.payload.arg_count()}), true);
+            }
+            for (mtin, l) in [(1u8, LogLevel::Fatal), (2, LogLevel::Error), (3, LogLevel::Warn), (4, LogLevel::Info), (5, LogLevel::Debug), (6, LogLevel::Verbose), (0, LogLevel::Invalid(0)), (9, LogLevel::Invalid(9))] {
+                let lv: log::Level = l.into();
+                out.emit(json!({"op": "loglevel", "mtin": mtin, "res": lv.as_str()}), true);
+            }
+        }
         _ => panic!("unknown codes mode {}", mode),
     }
 }
